@@ -120,13 +120,21 @@ def run(ctx):
     if ctx.replay and 'bytes_cases' in ctx.replay:
         bytes_family(ctx, 0, ctx.replay['bytes_cases'])
         return
+    if ctx.replay and 'straddle' in ctx.replay:
+        straddle_family(ctx, 0, ctx.replay['straddle'])
+        return
     if ctx.replay and 'cases' in ctx.replay:
         cases = [cl.case_from_json(j) for j in ctx.replay['cases']]
     else:
         cases = gen_c11(ctx.rng, 4000 if ctx.quick() else 20000)
+        large = cl.gen_large(ctx.rng)                   # large replies behind stale frames in one read chunk (shared with C10 / C12)
+        cases = [c for c, _ in large] + cases
     impl, model = cl.run_both(ctx, cases)
     n_mis, n_spec = cl.judge(ctx, 'C11', cases, impl, model)
     ctx.oblige('correspondence:client-task-scripts', n_mis == 0 and n_spec == 0, f'{n_mis} model / {n_spec} spec mismatches in {len(cases)} scripts')
+    if not ctx.replay:
+        nexp = cl.check_expectations(ctx, 'C11.request-not-completed-by-the-frame-that-carried-its-transaction-id', large, impl[:len(large)])
+        ctx.oblige('spec:directed-large-frame-expectations', nexp == 0, f'{nexp} failed of {len(large)}')
     extra = 0
     if ctx.tier == 'thorough' and not ctx.replay:
         extra = wrap_run(ctx)
@@ -136,6 +144,9 @@ def run(ctx):
         n_late = late_partial_family(ctx, 200 if ctx.quick() else 2000)
         n_bytes += n_late
         bytes_classes['bytes:late-partial-then-next-request'] = n_late
+        n_str = straddle_family(ctx, 150 if ctx.quick() else 1500)
+        n_bytes += n_str
+        bytes_classes['bytes:frame-straddling-a-260-byte-read'] = n_str
     classes = {}
     for c, i in zip(cases, impl):
         for k in cl.classify(c, i):
@@ -328,6 +339,96 @@ def late_partial_family(ctx, n):
                               {'late_partial': [line], 'impl': i, 'spec_for_second_request': want})
     ctx.oblige('correspondence:late-remainder-then-next-request-vs-spec-on-the-whole-stream', bad == 0, f'{bad} of {len(lines)}')
     return len(lines)
+
+
+def gen_straddle(r, n):
+    """one read chunk of EXACTLY 260 bytes (the receive buffer) = [frames with the NEXT transaction id][the reply to the
+    outstanding request 100][the first k bytes of a frame L with a FOREIGN transaction id]; the rest of L and the genuine
+    reply arrive while the next request (200) is outstanding.  Spec: a request completes only with the payload of a frame
+    whose transaction id is its own - request 100 with R0's values, request 200 with its own reply, never with L's or the
+    early frame's payload."""
+    out = []
+    hexs = lambda b: ''.join('%02X' % x for x in b)
+    regs = lambda vals: [3, 2 * len(vals)] + [b for v in vals for b in (v >> 8, v & 255)]
+    show = lambda start, vals: 'Ok=' + ','.join(f'{start + j}:{v}' for j, v in enumerate(vals))
+    while len(out) < n:
+        tx0 = r.choice([0, 0, 1, 65535, 65534, 12345])
+        tx1 = (tx0 + 1) % 65536
+        foreign = r.choice([0x7777, (tx1 + 1) % 65536, (tx0 - 1) % 65536, 0xFFFF ^ tx1])
+        if foreign in (tx0, tx1):
+            continue
+        k = r.choice([2, 2, 3, 4, 5, 6])                                       # bytes of L's header inside the first chunk
+        n0 = r.choice([60, 60, 40, 20])
+        v0 = [r.randrange(65536) for _ in range(n0)]
+        r0 = mbap(tx0, regs(v0))
+        # frames with the next id in front: one exception frame when k is odd (parity), then a register frame that fills the chunk
+        early = mbap(tx1, [0x83, r.choice([1, 2, 3, 4])]) if k % 2 else []
+        fill = 260 - k - len(r0) - len(early) - 9
+        if fill < 0 or fill % 2:
+            continue
+        early = mbap(tx1, regs([0xF1F1] * (fill // 2))) + early if r.random() < 0.5 else early + mbap(tx1, regs([0xF1F1] * (fill // 2)))
+        lf = mbap(foreign, regs([0xDEAD, 0xBEEF]))
+        chunk = early + r0 + lf[:k]
+        assert len(chunk) == 260
+        n1 = 2
+        kind1 = r.choice(['genuine', 'genuine', 'genuine', 'exception', 'silent'])
+        v1 = [0x1111, 0x2222]
+        reply1 = mbap(tx1, regs(v1)) if kind1 == 'genuine' else mbap(tx1, [0x83, 2]) if kind1 == 'exception' else []
+        tmo = 1000 * MS
+        steps = ['E:f', 'CO', f'S:100:h{n0}:{tmo}:f', 'B:' + hexs(chunk), f'S:200:h{n1}:{5 * MS}:f']
+        rest = lf[k:] + reply1
+        chunks1 = []
+        i = 0
+        mode = r.choice(['one', 'split', 'random'])
+        while i < len(rest):
+            j = len(rest) if mode == 'one' else (len(lf) - k if (mode == 'split' and i == 0) else r.randrange(1, 9))
+            chunks1.append(rest[i:i + j])
+            i += j
+        steps += ['B:' + hexs(c) for c in chunks1]
+        if kind1 == 'silent':
+            steps.append(f'T:{5 * MS}')
+        line = f'cap=4 handles=1 mt=0 rmin=20000000 rmax=40000000{" tx0=" + str(tx0) if tx0 else ""} | ' + ' '.join(steps)
+        want = {100: show(100, v0), 200: show(200, v1) if kind1 == 'genuine' else 'Exception=2' if kind1 == 'exception' else 'Timeout'}
+        nl = lambda b: '[' + ';'.join(str(x) for x in b) + ']'
+        sess = (f'({tx0}, [(Base.ClientTypes.RReadHoldingRegisters (100, {n0}), [{nl(chunk)}]); '
+                f'(Base.ClientTypes.RReadHoldingRegisters (200, {n1}), [{"; ".join(nl(c) for c in chunks1)}])])')
+        out.append({'line': line, 'want': {str(a): b for a, b in want.items()}, 'sess': sess if kind1 != 'silent' else None, 'k': k, 'kind1': kind1})
+    return out
+
+
+def straddle_family(ctx, n, items=None):
+    items = items or gen_straddle(ctx.rng, n)
+    impl = ctx.harness('client', [it['line'] for it in items], shards=4)
+    msess = {}
+    with_sess = [j for j, it in enumerate(items) if it.get('sess')]
+    if cl.MODEL_OK and with_sess and ctx.build_models(['Model.SystemClientEval']):
+        res = ctx.coq_eval(['Model.SystemClientEval', 'Base.ClientTypes'], 'eval_session', [items[j]['sess'] for j in with_sess],
+                           case_type='N * list (Base.ClientTypes.request * list (list N))')
+        msess = dict(zip(with_sess, res))
+    bad = 0
+    for j, (it, i) in enumerate(zip(items, impl)):
+        p = cl.parse(cl.canon(i))
+        got = {str(cid): cls for cid, cls, _ in p['comp']} if p else {}
+        ended = [t for t in (p['task'] if p else []) if t[0] == 'e']
+        ms = msess.get(j)
+        why = []
+        if got != it['want'] or ended:
+            why.append('C11.request-completed-with-the-payload-of-a-frame-that-carried-another-transaction-id'
+                       if any(g.startswith('Ok=') and g != it['want'].get(a) for a, g in got.items()) else 'C11.request-not-completed-by-the-frame-that-carried-its-transaction-id')
+        if ms is not None:
+            m, sp = ms.split('|')
+            if sp.split() != [it['want']['100'], it['want']['200']]:
+                why.append('spec-evaluation-differs-from-the-expectation-by-construction')
+            elif m != sp:
+                why.append('model-differs-from-spec')
+        if why:
+            bad += 1
+            if bad == 1:
+                ctx.violation(why[0], f'[{it["line"]}]: one 260-byte read = frames with the next id, the reply to request 100, the first {it["k"]} bytes of a frame with a foreign id; '
+                              f'required {it["want"]}, the client reports {got}, session ends {ended}; client_session|ref_session = {ms}; impl={i}',
+                              {'straddle': [it], 'impl': i}, no_failing_input=not why[0].startswith('C11.'))
+    ctx.oblige('correspondence:frame-straddling-the-end-of-the-receive-buffer-vs-spec', bad == 0, f'{bad} of {len(items)}')
+    return len(items)
 
 
 def bytes_family(ctx, n, cases=None):
